@@ -98,6 +98,12 @@ def cx(v):
     return complex(v[0], v[1])
 
 
+def chi_floor(beta, nmodes):
+    """absolute rounding floor for two-particle quantities: a component that vanishes by a symmetry the chosen partition
+    does not resolve is a sum of cancelling terms of size ~beta^3, so pomerol returns noise of order eps*beta^3*dim"""
+    return 1e-15 * beta ** 3 * (1 << nmodes) + 1e-13
+
+
 def model_classes(mdl, ref=None, nblocks=None):
     c = []
     if mdl.get("cplx"):
